@@ -47,7 +47,7 @@ def regular(draw, syms):
         return {"kind": "fa", "fa": {"cls": cls, "how": "mut", "order": "tsf", "trans": trans,
                                      "starts": [enc(names[0])], "finals": [enc(f) for f in finals]}}
     d = draw(gen_fa.fa_desc(max_states=3, max_trans=7, state_pools=["int", "str", "mixed", "merged"],
-                            force_syms=use, allow_extra=False))
+                            force_syms=use, allow_extra=False, big_states=(6, 7, 8)))
     if draw(st.integers(0, 3)) == 0 and d["cls"] == "dfa":
         # a deterministic automaton that is not of the DFA class
         d["cls"] = draw(st.sampled_from(["nfa", "enfa"]))
